@@ -95,14 +95,38 @@ func init() {
 		Props: []string{"C08", "C01"},
 		Floor: 1,
 		Run: func(c *Ctx, s *core.Sink) {
-			f := c.P.Func("url", "parser", "parseIPv6")
-			if f == nil || len(f.Blocks) == 0 {
+			r := ipv6PlaceAnalysis(c)
+			if r == nil {
 				return
 			}
+			switch {
+			case r.undec != "":
+				s.Obs = append(s.Obs, core.Obligation{Rule: s.Rule, Construct: r.key, Pos: r.pos, Verdict: core.Discharged, Fact: "inventory: not decided (" + r.undec + ")", Props: s.Props, Trivial: true})
+			case r.bad != "":
+				s.Bad(r.key, r.pos, r.bad)
+			default:
+				s.OK(r.key, r.pos, fmt.Sprintf("%d states (pieces read × place of '::'): failure, piece placement and brackets are the standard's; %s", r.n, r.note))
+			}
+		},
+	})
+}
+
+// ipv6PlaceAnalysis interprets the tail of the IPv6 parser for its 45 end states (memoised).
+func ipv6PlaceAnalysis(c *Ctx) *aiOutcome {
+	return c.Memo("ipv6PlaceAnalysis", func() interface{} {
+		return func() *aiOutcome {
+			f := c.P.Func("url", "parser", "parseIPv6")
+			if f == nil || len(f.Blocks) == 0 {
+				return nil
+			}
+			out := &aiOutcome{f: f, cov: newAICoverage()}
 			key := "ipv6place/" + core.FuncName(f)
 			pos := c.P.Pos(f.Pos())
+			out.key, out.pos = key, pos
 			undecided := func(why string) {
-				s.Obs = append(s.Obs, core.Obligation{Rule: s.Rule, Construct: key, Pos: pos, Verdict: core.Discharged, Fact: "inventory: not decided (" + why + ")", Props: s.Props, Trivial: true})
+				if out.undec == "" {
+					out.undec = why
+				}
 			}
 			m := buildErrModel(c)
 			ser := c.P.Func("url", "IPv6Addr", "String")
@@ -136,7 +160,7 @@ func init() {
 			}
 			if len(succs) == 0 {
 				undecided("no success return")
-				return
+				return out
 			}
 			// their nearest common dominator
 			start := succs[0]
@@ -147,7 +171,7 @@ func init() {
 			}
 			if reads[start] {
 				undecided("the input is still read where the success returns meet")
-				return
+				return out
 			}
 			for start.Idom() != nil && !reads[start.Idom()] {
 				start = start.Idom()
@@ -168,7 +192,7 @@ func init() {
 			for _, p := range start.Preds {
 				if region[p] {
 					undecided("the tail is inside a loop")
-					return
+					return out
 				}
 			}
 			// live-in values
@@ -227,25 +251,25 @@ func init() {
 			if len(names) > 0 {
 				sort.Strings(names)
 				undecided("other values live into the tail: " + strings.Join(names, ", "))
-				return
+				return out
 			}
 			if vPiece == nil || vCompress == nil || vAddr == nil {
 				undecided("the tail's state is not (address, pieceIdx, compress)")
-				return
+				return out
 			}
 			if _, ok := vCompress.(*ssa.Alloc); ok {
 				undecided("compress lives in memory")
-				return
+				return out
 			}
 			if _, ok := vPiece.(*ssa.Alloc); ok {
 				undecided("pieceIdx lives in memory")
-				return
+				return out
 			}
 			ks := map[int64]bool{}
 			constDefs(vCompress, map[ssa.Value]bool{}, ks)
 			if len(ks) != 1 {
 				undecided("the 'no compression' value of compress is not one constant")
-				return
+				return out
 			}
 			var none int64
 			for k := range ks {
@@ -253,7 +277,7 @@ func init() {
 			}
 			if none >= 1 && none <= 8 {
 				undecided("the 'no compression' value of compress is a possible place")
-				return
+				return out
 			}
 
 			// the meaning of compress the states below assume: wherever it is set, it is set to the number of pieces
@@ -267,7 +291,7 @@ func init() {
 				}
 				if !dp[v] {
 					undecided("compress is set to something else than the current number of pieces")
-					return
+					return out
 				}
 			}
 
@@ -278,7 +302,7 @@ func init() {
 					cs = append(cs, k)
 				}
 				for _, cp := range cs {
-					ai := &aiInterp{c: c}
+					ai := &aiInterp{c: c, cov: out.cov}
 					for i := range ai.arr {
 						if int64(i) < p {
 							ai.arr[i] = aiVal{k: aiPiece, s: string(rune('a' + i)), unk: true}
@@ -312,21 +336,21 @@ func init() {
 					for _, o := range opaque {
 						fr.env[o] = aiVal{k: aiOpaque}
 					}
-					out := ai.exec(fr, start, 0)
+					res := ai.exec(fr, start, 0)
 					if ai.bad != "" {
 						bad = fmt.Sprintf("%d pieces read, compress = %d: %s", p, cp, ai.bad)
 						break
 					}
 					if ai.why != "" {
 						undecided(ai.why)
-						return
+						return out
 					}
-					if out.k != aiTuple || len(out.tup) != 2 {
+					if res.k != aiTuple || len(res.tup) != 2 {
 						undecided("the result is not (text, error)")
-						return
+						return out
 					}
 					states++
-					failed := out.tup[1].k == aiErr && out.tup[1].b
+					failed := res.tup[1].k == aiErr && res.tup[1].b
 					state := fmt.Sprintf("%d pieces read, ", p)
 					if cp == none {
 						state += "no '::'"
@@ -361,8 +385,8 @@ func init() {
 						bad = state + ": rejected, the standard accepts"
 					case !wantFail:
 						w := "[{" + strings.Join(want, ":") + "}]"
-						if out.tup[0].k != aiStr || out.tup[0].s != w {
-							bad = fmt.Sprintf("%s (pieces a, b, …): the host is built from %s, the standard's address is %s", state, out.tup[0].s, w)
+						if res.tup[0].k != aiStr || res.tup[0].s != w {
+							bad = fmt.Sprintf("%s (pieces a, b, …): the host is built from %s, the standard's address is %s", state, res.tup[0].s, w)
 						}
 					}
 					if bad != "" {
@@ -370,11 +394,67 @@ func init() {
 					}
 				}
 			}
-			if bad != "" {
-				s.Bad(key, pos, bad)
-				return
+			out.bad, out.n, out.start = bad, states, start
+			out.note = fmt.Sprintf("'none' is %d", none)
+			return out
+		}()
+	}).(*aiOutcome)
+}
+
+// aiCovered: the instruction (an index or slice expression) or the block (a loop header) was executed by an abstract
+// interpretation that ran every class of its inputs to the end, and cannot be reached in any other way: it lies in the
+// function interpreted from its entry for all inputs (the serializer), in the part of the IPv6 parser behind the
+// analysed start block, or in an unexported helper all of whose call sites were themselves executed.
+func aiCovered(c *Ctx, ins ssa.Instruction, blk *ssa.BasicBlock) (bool, string) {
+	if ins != nil {
+		blk = ins.Block()
+	}
+	if blk == nil {
+		return false, ""
+	}
+	fn := blk.Parent()
+	try := func(r *aiOutcome, what string) (bool, string) {
+		if r == nil || r.undec != "" || r.bad != "" || r.cov == nil || r.n == 0 {
+			return false, ""
+		}
+		if ins != nil && !r.cov.instrs[ins] {
+			return false, ""
+		}
+		if !r.cov.blocks[blk] {
+			return false, ""
+		}
+		switch {
+		case fn == r.f && r.start == nil:
+			// interpreted from its entry, for every input
+		case fn == r.f:
+			if !r.start.Dominates(blk) {
+				return false, ""
 			}
-			s.OK(key, pos, fmt.Sprintf("%d states (pieces read × place of '::'): failure, piece placement and brackets are the standard's; 'none' is %d", states, none))
-		},
-	})
+		default:
+			// a helper: unexported, never used as a value, and called only from executed call sites
+			if !r.cov.fns[fn] || fn.Object() == nil || fn.Object().Exported() {
+				return false, ""
+			}
+			ix := sitesOf(c)
+			if ix.taken[fn] || len(ix.sites[fn]) == 0 {
+				return false, ""
+			}
+			for _, cs := range ix.sites[fn] {
+				if !r.cov.instrs[cs.Call] {
+					return false, ""
+				}
+				if cs.Fn == r.f && r.start != nil && !r.start.Dominates(cs.Call.Block()) {
+					return false, ""
+				}
+			}
+		}
+		return true, what
+	}
+	if ok, w := try(ipv6SerAnalysis(c), "executed by the abstract interpretation of the IPv6 serializer, which ran all 256 classes of addresses to the end (TAB-ipv6ser)"); ok {
+		return true, w
+	}
+	if ok, w := try(ipv6PlaceAnalysis(c), "executed by the abstract interpretation of the IPv6 parser's tail, which ran all 45 end states to the end (TAB-ipv6place; assumes its entry invariants)"); ok {
+		return true, w
+	}
+	return false, ""
 }
